@@ -5,6 +5,7 @@ import TwistedProps.C37.Priv
 import TwistedProps.C37.Sexpy
 import TwistedProps.C37.Lsh
 import TwistedProps.C37.OpenSSHv1
+import TwistedProps.C37.PubText
 /-!
 C37 — SSH wire primitives and keys round-trip.
 
@@ -29,15 +30,25 @@ of the parameters (`cryptography`'s CRT numbers, the random salt / check bytes, 
   cipher and the bcrypt KDF as parameters under the contract `CipherOps.Lawful`;
   `openssh_v1_wrong_check_refused_*`: two different check values are a `BadKeyError`;
   `openssh_v1_padding`: the padding loop appends 1, 2, 3, … to the block size.
+* `public_openssh_roundtrip`, `public_openssh_guessed`, `public_openssh_fromString`: the OpenSSH public TEXT line
+  `<type> <base64 blob> <comment>` (`_toPublicOpenSSH` / `_fromString_PUBLIC_OPENSSH`, RSA, DSA, Ed25519 — numbers of
+  ANY size, any comment bytes) reads back to the same key, `_guessStringType` names its reader, and so
+  `Key.fromString(line)` returns the key; base64 is CPython's (`encodebytes` chunking + the lenient `a2b_base64`),
+  `bytes.split()` / `strip()` are modelled; `public_openssh_body_is_blob`: the second token is exactly base64(blob).
+  ECDSA lines are written and read by `cryptography` (oracle only).
+* `guess_blob`, `blob_fromString`: `_guessStringType` (prefix tests + the `getMP` field count) sends every public blob, of
+  all four key types, to `_fromString_BLOB`, so `Key.fromString(key.blob())` returns the key.
 "Same fingerprint": `Key.fingerprint()` is a hash of `Key.blob()`, a function of the key — an equal key has
 the same one (checked on the real code by the oracle).
 
-Outside the model (oracle only): the PEM/DER formats `cryptography` produces, and the base64 / PEM armour
-around the v1 container and the LSH public form (`base64.encodebytes` / `decodebytes`, Python stdlib).
+Outside the model (oracle only): the PEM/DER formats `cryptography` produces, the ECDSA public text line
+(`cryptography`'s `public_bytes` / `load_ssh_public_key`), and the base64 / PEM armour around the v1 container and
+the LSH public form.
 -/
 namespace TwistedProps.C37
 open Twisted.Py Twisted.Ssh.Wire Twisted.Ssh.KeyBlob Twisted.Ssh.PrivKey Twisted.Ssh.Sexpy Twisted.Ssh.Lsh
-  Twisted.Ssh.OpenSSHv1
+  Twisted.Ssh.OpenSSHv1 Twisted.Ssh.PubText
+open Twisted.Cred.Digest (b64encode b64decode)
 
 /-! ### NS / getNS, MP / getMP (lemmas in `C37/Wire.lean`) -/
 
@@ -324,6 +335,180 @@ theorem openssh_v1_padding (l : Bytes) :
   · rw [padLoop_closed8, List.length_append, padding_length]; omega
   · rw [padLoop_closed16, List.length_append, padding_length]; omega
 
+/-! ### the OpenSSH public text line (lemmas in `C37/PubText.lean`) -/
+
+/-- what `_toPublicOpenSSH` wrote, taken apart: not an ECDSA key, the blob, and the line's shape -/
+theorem written_line (k : PubKey) (comment text : Bytes) (h : toPublicOpenSSH k comment = .ok text) :
+    (∀ c p, k ≠ .ec c p) ∧ ∃ b R tail, blob k = .ok b ∧ fromBlob b = .ok k ∧ text = sshType k ++ R ∧
+      splitWs text = sshType k :: b64encode b :: tail := by
+  have hnec : ∀ c p, k ≠ .ec c p := by
+    intro c p hk; subst hk; simp [toPublicOpenSSH] at h
+  refine ⟨hnec, ?_⟩
+  cases hb : blob k with
+  | error e => cases k <;> simp [toPublicOpenSSH, hb] at h
+  | ok b =>
+    have ht : text = Twisted.Ssh.PubText.strip (sshType k ++ [32] ++ b64line b ++ [32] ++ comment) := by
+      cases k <;> simp_all [toPublicOpenSSH]
+    have hfb : fromBlob b = .ok k := fromBlob_blob k b (fun c p hk => absurd hk (hnec c p)) hb
+    have hbne : b ≠ [] := by
+      intro h0; subst h0
+      simp [fromBlob, getNS1, liftW, bind, Except.bind] at hfb
+    rw [b64line_eq] at ht
+    obtain ⟨hT, hTne, _⟩ := sshType_facts k hnec
+    obtain ⟨R, tail, hs, hsp⟩ := line_shape (sshType k) (b64encode b) comment hT hTne
+      (fun x hx => (b64encode_not_ws b x hx).1) (b64encode_ne_nil b hbne)
+    exact ⟨b, R, tail, rfl, hfb, by rw [ht, hs], by rw [ht, hs, hsp]⟩
+
+/-- **The OpenSSH public line round-trips** (`_toPublicOpenSSH` → `_fromString_PUBLIC_OPENSSH`) for every RSA, DSA and
+    Ed25519 key — numbers of any size — and every comment (any bytes, whitespace included).  ECDSA keys are
+    written by `cryptography` (`toPublicOpenSSH` is `.error .opaque` for them, so `h` excludes them). -/
+theorem public_openssh_roundtrip (k : PubKey) (comment text : Bytes)
+    (h : toPublicOpenSSH k comment = .ok text) : fromPublicOpenSSH text = .ok k := by
+  obtain ⟨hnec, b, R, tail, _, hfb, ht, hsp⟩ := written_line k comment text h
+  unfold fromPublicOpenSSH
+  rw [hsp]
+  rw [ht, ((sshType_facts k hnec).2.2 R).1]
+  simp [TwistedProps.C48.b64decode_b64encode, Twisted.Ssh.PubText.liftP, hfb]
+
+/-- `_guessStringType` sends every written line to the public OpenSSH reader … -/
+theorem public_openssh_guessed (k : PubKey) (comment text : Bytes)
+    (h : toPublicOpenSSH k comment = .ok text) : guessStringType text = .ok .publicOpenssh := by
+  obtain ⟨hnec, b, R, tail, _, hfb, ht, hsp⟩ := written_line k comment text h
+  unfold guessStringType
+  rw [ht, ((sshType_facts k hnec).2.2 R).2]
+  simp
+
+/-- … so **`Key.fromString(line)`, type guessed, returns the key**. -/
+theorem public_openssh_fromString (k : PubKey) (comment text : Bytes)
+    (h : toPublicOpenSSH k comment = .ok text) : fromStringGuess text = .ok k := by
+  unfold fromStringGuess
+  rw [public_openssh_guessed k comment text h]
+  exact public_openssh_roundtrip k comment text h
+
+/-- The line's second whitespace-separated token is exactly the base64 of `Key.blob()` and decodes to it, whatever
+    the comment (so a reader that takes `split()[1]` — OpenSSH's, `cryptography`'s — sees the same blob). -/
+theorem public_openssh_body_is_blob (k : PubKey) (comment text : Bytes)
+    (h : toPublicOpenSSH k comment = .ok text) :
+    ∃ b tail, blob k = .ok b ∧ splitWs text = sshType k :: b64encode b :: tail ∧ b64decode (b64encode b) = .ok b := by
+  obtain ⟨_, b, R, tail, hb, _, _, hsp⟩ := written_line k comment text h
+  exact ⟨b, tail, hb, hsp, TwistedProps.C48.b64decode_b64encode b⟩
+
+/-- The writer refuses nothing but over-long numbers: it succeeds whenever `Key.blob()` does. -/
+theorem public_openssh_writes (k : PubKey) (comment b : Bytes) (hk : ∀ c p, k ≠ .ec c p) (hb : blob k = .ok b) :
+    ∃ text, toPublicOpenSSH k comment = .ok text := by
+  cases k with
+  | ec c p => exact absurd rfl (hk c p)
+  | rsa e n => simp [toPublicOpenSSH, hb]
+  | dsa p q g y => simp [toPublicOpenSSH, hb]
+  | ed25519 a => simp [toPublicOpenSSH, hb]
+
+/-- `encodebytes(b).replace(b"\n", b"")` is plain base64 of `b` (the 57-byte chunking never splits a triple). -/
+theorem encodebytes_without_newlines (b : Bytes) : b64line b = b64encode b := b64line_eq b
+
+/-- **`_guessStringType` names the blob reader for every public blob** (all four key types): `Key.fromString(key.blob())`
+    dispatches to `_fromString_BLOB`. -/
+theorem guess_blob (k : PubKey) (enc : Bytes) (hk : ∀ c p, k = .ec c p → c ∈ curves) (h : blob k = .ok enc) :
+    guessStringType enc = .ok .blob := by
+  cases k with
+  | rsa e n =>
+    simp only [blob] at h
+    cases ha : NS sshRsa with
+    | error x => simp [ha, bind, Except.bind] at h
+    | ok a =>
+      cases hb : MP (e : Int) with
+      | error x => simp [ha, hb, bind, Except.bind] at h
+      | ok b =>
+        cases hc : MP (n : Int) with
+        | error x => simp [ha, hb, hc, bind, Except.bind] at h
+        | ok c =>
+          simp only [ha, hb, hc, bind, Except.bind, pure, Except.pure] at h
+          cases h
+          have hA : a = [0, 0, 0, 7] ++ sshRsa := by
+            have : NS sshRsa = .ok ([0, 0, 0, 7] ++ sshRsa) := rfl
+            rw [this] at ha; cases ha; rfl
+          have := guess_of_fields a sshRsa [b, c] ha
+            (by intro x hx; simp at hx; rcases hx with rfl | rfl; exact isField_MP e _ hb; exact isField_MP n _ hc)
+            (by subst hA; rfl) (by subst hA; simp [pBin, startsWith, sshRsa, List.isPrefixOf])
+          simpa using this
+  | dsa p q g y =>
+    simp only [blob] at h
+    cases ha : NS sshDss with
+    | error x => simp [ha, bind, Except.bind] at h
+    | ok a =>
+      cases hb : MP (p : Int) with
+      | error x => simp [ha, hb, bind, Except.bind] at h
+      | ok b =>
+        cases hc : MP (q : Int) with
+        | error x => simp [ha, hb, hc, bind, Except.bind] at h
+        | ok c =>
+          cases hd : MP (g : Int) with
+          | error x => simp [ha, hb, hc, hd, bind, Except.bind] at h
+          | ok d =>
+            cases he : MP (y : Int) with
+            | error x => simp [ha, hb, hc, hd, he, bind, Except.bind] at h
+            | ok e =>
+              simp only [ha, hb, hc, hd, he, bind, Except.bind, pure, Except.pure] at h
+              cases h
+              have hA : a = [0, 0, 0, 7] ++ sshDss := by
+                have : NS sshDss = .ok ([0, 0, 0, 7] ++ sshDss) := rfl
+                rw [this] at ha; cases ha; rfl
+              have := guess_of_fields a sshDss [b, c, d, e] ha
+                (by intro x hx; simp at hx
+                    rcases hx with rfl | rfl | rfl | rfl
+                    · exact isField_MP p _ hb
+                    · exact isField_MP q _ hc
+                    · exact isField_MP g _ hd
+                    · exact isField_MP y _ he)
+                (by subst hA; rfl) (by subst hA; simp [pBin, startsWith, sshDss, List.isPrefixOf])
+              simpa using this
+  | ed25519 key =>
+    simp only [blob] at h
+    cases ha : NS sshEd with
+    | error x => simp [ha, bind, Except.bind] at h
+    | ok a =>
+      cases hb : NS key with
+      | error x => simp [ha, hb, bind, Except.bind] at h
+      | ok b =>
+        simp only [ha, hb, bind, Except.bind, pure, Except.pure] at h
+        cases h
+        have hA : a = [0, 0, 0, 11] ++ sshEd := by
+          have : NS sshEd = .ok ([0, 0, 0, 11] ++ sshEd) := rfl
+          rw [this] at ha; cases ha; rfl
+        have := guess_of_fields a sshEd [b] ha
+          (by intro x hx; simp at hx; subst hx; exact isField_NS key _ hb)
+          (by subst hA; rfl) (by subst hA; simp [pBin, startsWith, sshEd, List.isPrefixOf])
+        simpa using this
+  | ec curve point =>
+    have hcv := hk curve point rfl
+    simp only [blob] at h
+    cases ha : NS curve with
+    | error x => simp [ha, bind, Except.bind] at h
+    | ok a =>
+      cases hb : NS (curve.drop (curve.length - 8)) with
+      | error x => simp [ha, hb, bind, Except.bind] at h
+      | ok b =>
+        cases hc : NS point with
+        | error x => simp [ha, hb, hc, bind, Except.bind] at h
+        | ok c =>
+          simp only [ha, hb, hc, bind, Except.bind, pure, Except.pure] at h
+          cases h
+          have hA : ∃ x, curve = [101, 99, 100, 115, 97, 45] ++ x ∧ a = [0, 0, 0, 19] ++ curve := by
+            have hns := NS_curve curve hcv
+            rw [hns.2] at ha; cases ha
+            exact ⟨_, hns.1.choose_spec, rfl⟩
+          obtain ⟨x, hx, hA⟩ := hA
+          have := guess_of_fields a curve [b, c] ha
+            (by intro x hx; simp at hx; rcases hx with rfl | rfl; exact isField_NS _ _ hb; exact isField_NS _ _ hc)
+            (by subst hA; rfl) (by subst hA; subst hx; simp [pBin, startsWith, List.isPrefixOf])
+          simpa using this
+
+/-- … so **`Key.fromString(key.blob())`, type guessed, returns the key** (all four key types). -/
+theorem blob_fromString (k : PubKey) (enc : Bytes) (hk : ∀ c p, k = .ec c p → c ∈ curves) (h : blob k = .ok enc) :
+    fromStringGuess enc = .ok k := by
+  unfold fromStringGuess
+  rw [guess_blob k enc hk h, fromBlob_blob k enc hk h]
+  rfl
+
 /-! ### Non-vacuity -/
 
 /-- the contract is satisfiable: a toy XOR-free "cipher" (identity) is lawful … -/
@@ -354,6 +539,17 @@ example : (match toOpenSSHv1 incCipher (.ed25519 ((List.replicate 32 5).reverse)
   decide +kernel
 example : (match MP 128 with | .ok b => b == [0, 0, 0, 2, 0, 128] | _ => false) = true := by decide +kernel
 example : (match getMP 1 [0, 0, 0, 2, 0, 128, 7] with | .ok r => r == ([128], [7]) | _ => false) = true := by decide +kernel
+/-- `ssh-rsa AAAAB3NzaC1yc2EAAAADAQABAAAAAgD/ hi`: the writer strips the comment's trailing blank … -/
+example : (match toPublicOpenSSH (.rsa 65537 255) [104, 105, 32] with
+  | .ok t => t == [115, 115, 104, 45, 114, 115, 97, 32, 65, 65, 65, 65, 66, 51, 78, 122, 97, 67, 49, 121, 99, 50, 69, 65, 65,
+      65, 65, 68, 65, 81, 65, 66, 65, 65, 65, 65, 65, 103, 68, 47, 32, 104, 105]
+  | _ => false) = true := by decide +kernel
+/-- … and the reader (type guessed) takes a tab as separator and a trailing newline -/
+example : (match fromStringGuess [115, 115, 104, 45, 114, 115, 97, 9, 65, 65, 65, 65, 66, 51, 78, 122, 97, 67, 49, 121, 99,
+    50, 69, 65, 65, 65, 65, 68, 65, 81, 65, 66, 65, 65, 65, 65, 65, 103, 68, 47, 10] with
+  | .ok k => k == .rsa 65537 255 | _ => false) = true := by decide +kernel
+example : (match blob (.dsa 23 11 4 8) with | .ok b => (match fromStringGuess b with | .ok k => k == .dsa 23 11 4 8 | _ => false) | _ => false) = true := by
+  decide +kernel
 example : (match NS [1, 2] with | .ok b => b == [0, 0, 0, 2, 1, 2] | _ => false) = true := by decide +kernel
 example : (match blob (.rsa 65537 255) with | .ok b => b.length == 24 | _ => false) = true := by decide +kernel
 
